@@ -18,7 +18,7 @@ from odl.solvers.nonsmooth.admm import admm_linearized, admm_linearized_simple
 from odl.solvers.nonsmooth.alternating_dual_updates import adupdates, adupdates_simple
 from odl.solvers.nonsmooth.difference_convex import doubleprox_dc, doubleprox_dc_simple
 
-from .. import sanitize, trace, util
+from .. import cover, sanitize, trace, util
 
 SHARDS = {'quick': 4, 'thorough': 16}
 S = odl.solvers
@@ -182,6 +182,20 @@ def run_adupdates(ctx, idx0):
                     adupdates(x2, gl, Ls, stepsize, inner, niter, random=True)
                     if not rel_close(x, x2, 1e-14):
                         ctx.violation(comp, cfg, 'random-order-not-reproducible-with-seed')
+                    # callbacks after every partial update: one observation per dual block and sweep, the last one is the result,
+                    # and every len(g)-th one is what the per-sweep callback of an identical run sees
+                    ctx.ev('exactly-once')
+                    ri = trace.Recorder()
+                    xi = x0.copy()
+                    adupdates(xi, gl, Ls, stepsize, inner, niter, callback=ri, callback_loop='inner')
+                    if len(ri) != niter * len(gl):
+                        ctx.violation(comp, cfg + ';loop=inner', 'callback-count', got=len(ri), want=niter * len(gl))
+                    elif niter:
+                        if not rel_close(xi, ri.iterates[-1], 1e-14):
+                            ctx.violation(comp, cfg + ';loop=inner', 'final-iterate-not-last-callback')
+                        mm = trace.first_mismatch(ri.iterates[len(gl) - 1::len(gl)], r1.iterates)
+                        if mm:
+                            ctx.violation(comp, cfg + ';loop=inner', 'iterate-mismatch', first_k=mm[0], rel=mm[1])
                 except Exception as e:
                     ctx.violation(comp, cfg, 'raises:' + type(e).__name__, message=str(e)[:200])
     return idx
@@ -385,6 +399,30 @@ def run_resume(ctx, idx0):
                         ctx.violation('kaczmarz', kind + ';projection;loop=inner', 'final-iterate-not-last-callback')
                 except Exception as e:
                     ctx.violation('kaczmarz', kind + ';projection;loop=inner', 'raises:' + type(e).__name__, message=str(e)[:200])
+                # random order: the documented randomisation is one permutation of the equations per sweep, drawn from NumPy's
+                # global generator - identically seeded, the run equals the reference that draws the same permutations
+                ctx.ev('reference-equality')
+                try:
+                    opsk, rhsk = [A, 0.5 * A, -0.25 * A], [b, 0.5 * b, -0.25 * b]
+                    nk = max(niter, 1)
+                    np.random.seed(4321)
+                    r = trace.Recorder()
+                    xk = x0.copy()
+                    S.kaczmarz(opsk, xk, rhsk, nk, omega=om, random=True, callback=r)
+                    np.random.seed(4321)
+                    xr = x0.copy()
+                    ref_its = []
+                    for _ in range(nk):
+                        for i_ in np.random.permutation(range(len(opsk))):
+                            xr = xr + om * opsk[i_].adjoint(rhsk[i_] - opsk[i_](xr))
+                        ref_its.append(trace.flat(xr).copy())
+                    mm = trace.first_mismatch(r.iterates, ref_its)
+                    if len(r) != nk:
+                        ctx.violation('kaczmarz', kind + ';random-order', 'callback-count', got=len(r), want=nk)
+                    elif mm:
+                        ctx.violation('kaczmarz', kind + ';random-order', 'iterate-mismatch', first_k=mm[0], rel=mm[1])
+                except Exception as e:
+                    ctx.violation('kaczmarz', kind + ';random-order', 'raises:' + type(e).__name__, message=str(e)[:200])
                 # spellings of the callback option: whatever string is given, the callback either sees the documented number of
                 # iterates (one per iteration for 'outer', one per partial update for 'inner') or the call is refused - never
                 # an unobserved run
@@ -505,11 +543,22 @@ def run(ctx):
     ctx.note('rule', 'one case = one (solver, problem kind, functional classes for every slot, repetition) with seeded operator, '
                      'data, step sizes, start point, iteration count and split point; functional classes and problem kinds are '
                      'enumerated, the seed varies values; distinct = distinct case keys')
+    import odl.solvers.iterative.iterative as _it, odl.solvers.iterative.statistical as _st, odl.solvers.smooth.gradient as _gr, \
+        odl.solvers.nonsmooth.primal_dual_hybrid_gradient as _pd, odl.solvers.nonsmooth.proximal_gradient_solvers as _pg, \
+        odl.solvers.nonsmooth.admm as _ad, odl.solvers.nonsmooth.alternating_dual_updates as _au, odl.solvers.nonsmooth.difference_convex as _dc
+    cov = cover.Cover()
+    for mod, names in ((_it, ('landweber', 'kaczmarz')), (_st, ('mlem', 'osmlem')), (_gr, ('steepest_descent',)), (_pd, ('pdhg',)),
+                       (_pg, ('proximal_gradient',)), (_ad, ('admm_linearized', 'admm_linearized_simple')),
+                       (_au, ('adupdates', 'adupdates_simple')), (_dc, ('doubleprox_dc', 'doubleprox_dc_simple'))):
+        for nm in names:
+            cov.add(getattr(mod, nm, None), nm)
+    cov.arm()
     sanitize.poison_on()
     idx = run_admm(ctx, 0)
     idx = run_adupdates(ctx, idx)
     idx = run_dpdc(ctx, idx)
     idx = run_resume(ctx, idx)
     ctx.note('poisoned_elements', sanitize.poisoned_count())
+    cover.report_to(ctx, cov)
     for m in ('reference-equality', 'resume-equality', 'exactly-once'):
         ctx.ev(m, 0)
